@@ -545,3 +545,36 @@ package kapacitor
 //@     modifies elems(points)
 //@     invariant 0 <= i && i <= w.stop && l == len(w.buf) && j == l - w.start + i && len(points) == w.size && samearray(points, before(points))
 //@     invariant forall k int :: 0 <= k && k < j ==> points[k] == wcView(w, k)
+
+// ---------------------------------------------------------------- window.go: time windows, emission schedule (C03)
+
+// The ring buffer operations are assumed here (trusted); see DESIGN §13 for why purge's
+// dead-slot argument was not brought under contract.
+//@ func (*windowTimeBuffer).insert
+//@   trusted
+//@   modifies object(b)
+//@ func (*windowTimeBuffer).purge
+//@   trusted
+//@   modifies object(b)
+//@ func (*windowByTime).batch
+//@   trusted
+//@   modifies nothing
+//@   ensures result != nil
+
+// "windows are emitted once per 'every' step of data time ... a time window emitted with end
+// time T contains ... [T-period, T) (for every()=0: (t-period, t] of the triggering point)":
+// when and with which bounds the buffer is purged and the batch cut.
+//@ func (*windowByTime).Point
+//@   props C03
+//@   requires w != nil && w.buf != nil && p != nil && w.every >= 0
+//@   ensures err == nil && called(insert)
+//@   ensures (msg != nil) <==> (p.Time() >= old(w.nextEmit))
+//@   ensures called(purge) <==> (p.Time() >= old(w.nextEmit))
+//@   ensures called(batch) <==> (p.Time() >= old(w.nextEmit))
+//@   ensures w.every != 0 && p.Time() >= old(w.nextEmit) ==>
+//@       callarg(purge, 0) == old(w.nextEmit) - time.Time(w.period) && callarg(purge, 1) && callarg(batch, 0) == old(w.nextEmit)
+//@       && w.nextEmit == ite(w.align, p.Time() + time.Time(w.every) - emod(p.Time() + time.Time(w.every), time.Time(w.every)), p.Time() + time.Time(w.every))
+//@       && w.nextEmit > p.Time()
+//@   ensures w.every == 0 && p.Time() >= old(w.nextEmit) ==>
+//@       callarg(purge, 0) == p.Time() - time.Time(w.period) && !callarg(purge, 1) && callarg(batch, 0) == p.Time() && w.nextEmit == p.Time()
+//@   ensures p.Time() < old(w.nextEmit) ==> w.nextEmit == old(w.nextEmit)
